@@ -237,6 +237,152 @@ fn error_cases(tables: &Tables) -> Vec<Failure> {
     out
 }
 
+/// interaction layer: JOIN x WHERE x projection x DISTINCT x LIMIT in every combination, against a generic reference
+/// executor (reference join -> reference expression evaluator -> filter -> project -> first-occurrence DISTINCT -> take n)
+fn interaction_layer(ctx: &Ctx, col: &Collector) -> (u64, bool) {
+    use crate::refmodel::expr::{b, eval, Bin, Ev, Lit, Row, E};
+    let tables = sut::make_tables(&defs("TEXT")).unwrap();
+    let ma = main_alpha("TEXT");
+    let ja = joined_alpha("TEXT");
+    let c = |n: &str| E::Col(n.to_string());
+    let projections: Vec<Vec<E>> = vec![
+        vec![c("t.k"), c("x"), c("y")],
+        vec![E::Bin(Bin::Add, b(c("t.x")), b(c("y")))],
+        vec![E::Case(vec![(E::IsNull(b(c("y")), false), E::Lit(Lit::Int(0)))], b(c("y"))), c("t.k")],
+        vec![c("u.k")],
+        vec![c("m"), c("u.x")],
+    ];
+    let filters: Vec<Option<E>> = vec![
+        None,
+        Some(E::Bin(Bin::Gt, b(c("x")), b(E::Lit(Lit::Int(1))))),
+        Some(E::Bin(Bin::Or, b(E::Bin(Bin::Gt, b(c("y")), b(E::Lit(Lit::Int(10))))), b(E::IsNull(b(c("y")), false)))),
+        Some(E::Bin(Bin::And, b(E::Bin(Bin::Eq, b(c("t.k")), b(E::Lit(Lit::Text("a".into()))))), b(E::Bin(Bin::Ne, b(c("y")), b(E::Lit(Lit::Int(40))))))),
+        Some(E::In(b(c("u.x")), vec![E::Lit(Lit::Int(100)), E::Lit(Lit::Int(300))], true)),
+    ];
+    let limits: [Option<usize>; 5] = [None, Some(0), Some(1), Some(2), Some(4)];
+    // statement space
+    let mut stmts: Vec<(usize, usize, bool, usize, u8)> = Vec::new(); // projection, filter, distinct, limit, join kind (0 inner, 1 outer)
+    for p in 0..projections.len() {
+        for f in 0..filters.len() {
+            for d in [false, true] {
+                for l in 0..limits.len() {
+                    for j in 0..2u8 {
+                        stmts.push((p, f, d, l, j));
+                    }
+                }
+            }
+        }
+    }
+    let maxlen = ctx.tier.pick(2, 3) as u32;
+    let km = ma.len() as u64;
+    let nm = seq_count(km, maxlen);
+    let joined_sets: Vec<Vec<u8>> = vec![vec![], vec![0, 1], vec![0, 3, 1, 2], vec![3, 0, 5, 4, 0]];
+    let total = stmts.len() as u64 * nm;
+    par_for_budget(ctx, total, 16, |idx| {
+        let (p, f, d, l, j) = stmts[(idx % stmts.len() as u64) as usize];
+        let mseq = seq_decode(idx / stmts.len() as u64, km, maxlen);
+        let mlines: Vec<&str> = mseq.iter().map(|i| ma[*i as usize].0.as_str()).collect();
+        let main: Vec<MainRow> = mseq.iter().filter_map(|i| ma[*i as usize].1.clone()).collect();
+        for jset in &joined_sets {
+            let joined: Vec<JoinedRow> = jset.iter().filter_map(|i| ja[*i as usize].1.clone()).collect();
+            let jl: Vec<&str> = jset.iter().map(|i| ja[*i as usize].0.as_str()).collect();
+            let jf = sut::files_from(&jl, &[jl.len()]);
+            let tmp = sut::TempFiles::new(&[jf[0].as_slice()]);
+            let text = format!(
+                "SELECT {}{} FROM t {} JOIN u::'{}' ON t.k = u.k{}{}",
+                if d { "DISTINCT " } else { "" },
+                projections[p].iter().map(|e| e.full()).collect::<Vec<_>>().join(", "),
+                if j == 1 { "OUTER" } else { "INNER" },
+                tmp.paths[0],
+                filters[f].as_ref().map(|e| format!(" WHERE {}", e.full())).unwrap_or_default(),
+                limits[l].map(|n| format!(" LIMIT {}", n)).unwrap_or_default()
+            );
+            // reference
+            let mut rows: Vec<Vec<RVal>> = Vec::new();
+            let mut open = false;
+            for r in &main {
+                let partners: Vec<Option<&JoinedRow>> = {
+                    let ps: Vec<Option<&JoinedRow>> = joined.iter().filter(|s| !r.k.is_null() && !s.k.is_null() && ref_eq(&r.k, &s.k)).map(Some).collect();
+                    if ps.is_empty() && j == 1 { vec![None] } else { ps }
+                };
+                for s in partners {
+                    let mut env = Row::new();
+                    env.insert("k".into(), r.k.clone());
+                    env.insert("t.k".into(), r.k.clone());
+                    env.insert("x".into(), r.x.clone());
+                    env.insert("t.x".into(), r.x.clone());
+                    env.insert("m".into(), r.m.clone());
+                    env.insert("y".into(), s.map(|s| s.y.clone()).unwrap_or(RVal::Null));
+                    env.insert("u.y".into(), s.map(|s| s.y.clone()).unwrap_or(RVal::Null));
+                    env.insert("u.k".into(), s.map(|s| s.k.clone()).unwrap_or(RVal::Null));
+                    env.insert("u.x".into(), s.map(|s| s.x.clone()).unwrap_or(RVal::Null));
+                    let keep = match &filters[f] {
+                        None => true,
+                        Some(e) => match eval(e, &env) {
+                            Ev::Val(RVal::Bool(t)) => t,
+                            Ev::Val(RVal::Null) => false,
+                            _ => {
+                                open = true;
+                                false
+                            }
+                        },
+                    };
+                    if keep {
+                        let mut out = Vec::new();
+                        for e in &projections[p] {
+                            match eval(e, &env) {
+                                Ev::Val(v) => out.push(v),
+                                _ => {
+                                    open = true;
+                                    out.push(RVal::Null)
+                                }
+                            }
+                        }
+                        rows.push(out);
+                    }
+                }
+            }
+            if open {
+                continue;
+            }
+            if d {
+                rows = distinct_rows(&rows);
+            }
+            if let Some(n) = limits[l] {
+                rows.truncate(n);
+            }
+            let st = match sut::parse(&text) {
+                Ok(s) => s,
+                Err(e) => {
+                    col.fail(fail(format!("join-interaction:rejected:{}", msg_class(&e)), format!("`{}` rejected: {}", text, e), json!({"layer": "interaction", "statement": text}), json!("parses"), json!(e), 0));
+                    continue;
+                }
+            };
+            let got = sut::run_batch(&tables, &st, &mlines);
+            col.eval(1);
+            let ok = matches!(&got, Outcome::Ok(t) if sut::rows_same(&t.rows, &rows));
+            if !rows.is_empty() && main.len() >= 2 {
+                col.nontrivial(h64(&("ia", idx, jset)));
+            }
+            col.outcome(h64(&(rows.len().min(5), ok)));
+            if !ok {
+                let feats = format!("{}{}{}{}", if j == 1 { "outer" } else { "inner" }, if d { "+distinct" } else { "" }, if limits[l].is_some() { "+limit" } else { "" }, if filters[f].is_some() { "+where" } else { "" });
+                col.fail(fail(
+                    format!("join-interaction:{}:{}", feats, match &got { Outcome::Ok(t) if t.rows.len() > rows.len() => "extra-rows", Outcome::Ok(t) if t.rows.len() < rows.len() => "missing-rows", Outcome::Ok(_) => "rows-differ", Outcome::Err(_) => "error", Outcome::Panic(_) => "panic" }),
+                    format!("`{}` main {:?} joined {:?}: expected {:?}", text.replace(&tmp.paths[0], "<joined>"), mlines, jl, rows),
+                    json!({"layer": "interaction", "statement": text.replace(&tmp.paths[0], "<joined>"), "main": mlines, "joined": jl}),
+                    rows_json(&rows),
+                    sut::outcome_json(&got, |t| t.to_json()),
+                    (mseq.len() + jset.len()) as u64,
+                ));
+            }
+            if idx % 20011 == 3 {
+                col.sample(json!({"layer": "interaction", "statement": text.replace(&tmp.paths[0], "<joined>"), "main": mlines, "joined": jl}));
+            }
+        }
+    })
+}
+
 /// line-ending layer: regex tables whose join key is captured up to the end of the line; the same files with LF, CRLF
 /// and without a final line terminator must give the same joined output
 fn line_ending_layer(col: &Collector) -> u64 {
@@ -338,6 +484,8 @@ pub fn run(ctx: &Ctx) -> i32 {
             col.eval(6);
         }
     }
+    let (done, complete) = interaction_layer(ctx, &col);
+    col.layer("interaction: JOIN x WHERE x projection x DISTINCT x LIMIT (generic reference executor)", done, complete, json!({"statements": 500, "joined_files": 4}));
     let n = line_ending_layer(&col);
     col.layer("line endings of the joined / main file", n, true, json!({"renderings": ["LF/LF", "CRLF/LF", "LF/CRLF", "CRLF/CRLF", "no final terminator", "CRLF + joined final terminator only"]}));
     finish(
